@@ -10,7 +10,7 @@ p = os.path.join(here, "DESIGN.md")
 s = open(p).read()
 s = re.sub(r"<!-- SEEDED-TABLE-BEGIN -->.*?<!-- SEEDED-TABLE-END -->", "<!-- SEEDED-TABLE-BEGIN -->\n" + table + "<!-- SEEDED-TABLE-END -->", s, flags=re.S)
 s = re.sub(r"waves, \d+ changes", "waves, %d changes" % n, s)
-s = re.sub(r"\*\*All \d+ are caught", "**All %d are caught" % n, s)
+pass
 s = re.sub(r"\d+ were caught on the first run; \d+ were missed", "%d were caught on the first run; %d were missed" % (caught, n - caught), s)
 open(p, "w").write(s)
 print(n, caught)
